@@ -446,3 +446,33 @@ _base_scn_d = scenarios
 
 def scenarios():
     return _base_scn_d() + [dispatcher('unversioned'), dispatcher('versioned')]
+
+
+def packet_update_hlen():
+    """Packet.update_hlen: the header length becomes the number of body octets the packet serialises to right now"""
+    label = 'C08/Packet.update_hlen'
+    T = 'pgpy.packet.types.'
+
+    def gen(repo):
+        r = scn.Run(repo, T + 'Packet', 'update_hlen', label)
+        ex, st = r.ex, r.st
+        HDRB, BODY = z3.Const('HEADER_AS_WRITTEN_NOW', B), z3.Const('BODY', B)
+        r.set('pkt', 'header', E.VObj(T + 'Header', 'hdr'))
+        r.hook(T + 'Header', '__len__', scn.method_hook(lambda ex, st, o, a: [(st, E.VInt(z3.Length(HDRB)))]))
+        for c in (T + 'Packet', P + 'LiteralData'):
+            r.hook(c, '__bytearray__', scn.method_hook(lambda ex, st, o, a: [(st, ex.new_buf(st, z3.Concat(HDRB, BODY)))]))
+        for pi, (s, v) in enumerate(r.call(E.VObj(P + 'LiteralData', 'pkt'), [])):
+            if isinstance(v, E.Raise):
+                r.oblige(s, 'safety(%s)/p%d' % (v.exc.split(':')[0], pi), z3.BoolVal(False), v.where)
+                continue
+            nl = s.heap.get(('hdr', '_len'))
+            r.oblige(s, 'header-length=number-of-body-octets/p%d' % pi, ex.as_int(nl) == z3.Length(BODY) if isinstance(nl, E.VInt) else z3.BoolVal(False))
+        return r.result()
+    return Scenario(label, T + 'Packet.update_hlen', gen, props=('C08', 'C06'))
+
+
+_base_scn_uh = scenarios
+
+
+def scenarios():
+    return _base_scn_uh() + [packet_update_hlen()]
